@@ -1,11 +1,15 @@
 import PycsepVerif.Drive.Soft
 import PycsepVerif.Drive.C09
+import PycsepVerif.Drive.C04
+import PycsepVerif.Drive.C11
 -- REGISTER-IMPORT (one `import PycsepVerif.Drive.Cxx` line per property, above this line)
 
 /-- the per-property handlers, tried in order; each returns `none` for ops it does not know -/
 def handlers : List (List String → Option String) := [
   Drive.Soft.handle,
   Drive.C09.handle
+  , Drive.C04.handle
+  , Drive.C11.handle
   -- REGISTER-HANDLER (`, Drive.Cxx.handle` lines above this line)
 ]
 
